@@ -471,6 +471,22 @@ def do_replay(here, path):
     print("obligation :", j.get("obligation"), "in", j.get("func"))
     print("source     :", j.get("src"))
     print("exit       :", j.get("exit_text"))
+    if j.get("counterexample"):
+        # Kani counter-example: run the concrete playback test natively against the real crate again
+        import kani_engine
+        tmp = tempfile.mkdtemp(prefix="kanal-verif-replay-")
+        try:
+            crate = kani_engine.prepare("/repo", tmp)
+            src = os.path.join(crate, "src", "verif_kani.rs")
+            open(src, "a").write("\n" + j["counterexample"] + "\n")
+            name = re.search(r"fn (kani_concrete_playback_\w+)", j["counterexample"]).group(1)
+            r = kani_engine.sh(["cargo", "kani", "playback", "-Z", "concrete-playback", "--lib", "--", name], crate)
+            print(r.stdout[-3000:])
+            failed = "test result: FAILED" in r.stdout
+            print("native replay of the Kani counter-example on /repo: %s" % ("REPRODUCES the violation" if failed else "passes (the violation is not present in the current tree)"))
+            return 1 if failed else 0
+        finally:
+            shutil.rmtree(tmp, ignore_errors=True)
     print("verdict    : the deductive verifier gives no model for this obligation (no-failing-input-found);")
     print("             re-run `./check %s` to re-derive it from the current tree. Verifier output follows.\n" % j.get("property"))
     print(j.get("verifier_output", ""))
